@@ -93,6 +93,9 @@ def cases(ctx):
             near = rng.choice(score.astype(float), 3) + rng.choice([-1e-9, 1e-9], 3)
             cand = np.concatenate([cand, near, near])
         thr = np.sort(rng.choice(cand, nthr, replace=False))
+        if rng.random() < 0.5:  # thresholds in the order the user happens to list them
+            nthr = int(rng.integers(3, 6)) if rng.random() < 0.6 else nthr
+            thr = rng.choice(cand, nthr, replace=False)
         form = str(rng.choice(["list", "array", "scalar", "0d"]))
         if form in ("scalar", "0d"):
             thr = thr[:1]
